@@ -30,6 +30,7 @@ func (m *CPU) Run(app risc.Application) (int, error) {
 loop:
 	var pc int32
 	for pc/4 < int32(len(app.Instructions)) {
+		m.ctx.VerifTick()
 		nextPc := m.fetchInstruction(pc)
 		r := m.decode(app, nextPc)
 		exe, ins, err := m.execute(app, r, nextPc)
